@@ -483,7 +483,7 @@ def main():
         native_sel = [h for h in pcfg.get('native_quick', [])]
         if native_sel and not os.environ.get('VERIF_NO_NATIVE_ORACLES'):
             import replay_search
-            try: nres = replay_search.native_batch(native_sel, timeout=int(os.environ.get('VERIF_REPLAY_TIMEOUT', '400')))
+            try: nres = replay_search.native_batch(native_sel, timeout=int(os.environ.get('VERIF_REPLAY_TIMEOUT', '400')), prop=prop)
             except Exception as e: nres = {h: {'status': 'search-error: %s' % e} for h in native_sel}
             extra.setdefault('report', {})['native_oracles'] = {h: {k: v for k, v in r.items() if k in ('status', 'bound', 'wall_s', 'inputs', 'replay_output')} for h, r in nres.items()}
             for h, r in sorted(nres.items()):
@@ -508,7 +508,7 @@ def main():
             t_end = time.time() + 3 * int(os.environ.get('VERIF_REPLAY_TIMEOUT', '400'))
             for h in hs:
                 if time.time() > t_end: break
-                try: sr = dict(replay_search.search(h, timeout=int(os.environ.get('VERIF_REPLAY_TIMEOUT', '400'))), harness=h)
+                try: sr = dict(replay_search.search(h, timeout=int(os.environ.get('VERIF_REPLAY_TIMEOUT', '400')), prop=prop), harness=h)
                 except Exception as e2: sr = {'status': 'search-error: %s' % e2, 'harness': h}
                 print('UNDECIDED property=%s: bounded search %s (%s): %s' % (prop, h, sr.get('bound', '?'), sr.get('status')))
                 if sr.get('status') == 'replayed-fails':
@@ -566,7 +566,7 @@ def main():
                 if not h or h in tried: continue
                 tried.add(h)
                 try:
-                    sr = replay_search.search_any(l if replay_search.harness_for(l) else '%s@%s' % (l, x.get('fn') or ''), timeout=int(os.environ.get('VERIF_REPLAY_TIMEOUT', '400')))
+                    sr = replay_search.search_any(l if replay_search.harness_for(l) else '%s@%s' % (l, x.get('fn') or ''), timeout=int(os.environ.get('VERIF_REPLAY_TIMEOUT', '400')), prop=prop)
                 except Exception as e:
                     sr = {'status': 'search-error: %s' % e, 'harness': h}
                 search_notes.append('bounded search %s (%s): %s' % (h, sr.get('bound', '?'), sr.get('status')))
@@ -595,7 +595,7 @@ def main():
             h = replay_search.harness_for(f['obligation'])
             if h:
                 try:
-                    searched[f['obligation']] = replay_search.search_any(f['obligation'], timeout=int(os.environ.get('VERIF_REPLAY_TIMEOUT', '400')))
+                    searched[f['obligation']] = replay_search.search_any(f['obligation'], timeout=int(os.environ.get('VERIF_REPLAY_TIMEOUT', '400')), prop=prop)
                 except Exception as e:
                     searched[f['obligation']] = {'status': 'search-error: %s' % e, 'harness': h}
                 break
